@@ -313,7 +313,7 @@ Proof.
 Qed.
 
 (** Regression: the former counter-example (before the repair MaxDataLen(16390) was 16386 and the
-    frame 16392 bytes long). Now 16384 bytes of data are admitted and the frame has exactly 16390 bytes. *)
+    frame 16392 bytes long). Now 16384 bytes of data are allowed and the frame has exactly 16390 bytes. *)
 Example maxdatalen_crypto_large_regression :
   maxdatalen_crypto 0 16390 = 16384 /\
   (forall data, zlen data = 16384 -> length_crypto 0 data = 16390).
